@@ -26,9 +26,14 @@ Case kinds
              ``of`` subset / reordered only; ``wrt`` subset / reordered only; both given; default
              again; optionally a custom request first).  Every request is compared entry by entry
              with the same request on an uncolored twin problem: the driver's coloring is valid for
-             exactly one jacobian layout and must never leak into another one.
+             exactly one jacobian layout and must never leak into another one.  Re-setup variant:
+             after the first round the component's sparsity is changed through an option (both
+             problems), ``setup()`` is called again on the same Problem and the requests are
+             repeated; a coloring from an earlier setup must never survive.
 ``partial``  colored vs uncolored partials: a component with ``declare_coloring(method='cs')``
-             (approximation_scheme.py) and an ``om.ExecComp`` (exec_comp.py) with that pattern.
+             (approximation_scheme.py) and an ``om.ExecComp`` (exec_comp.py) with that pattern; and
+             a bilinear ExecComp (``y_r = sum a_rc x_c v_c``) whose first linearization, where it
+             computes its coloring, happens at ``x = 0`` and which is then evaluated elsewhere.
 """
 import os
 import random
@@ -323,11 +328,19 @@ def _lin2_class():
     import openmdao.api as om
 
     class Lin2(om.ExplicitComponent):
-        """(y1, y2) = A (x, w) with A split into four declared sparse blocks."""
+        """(y1, y2) = A (x, w) with A split into four declared sparse blocks.  The option `which`
+        selects one of several matrices of the same shape (another sparsity after a new setup())."""
 
-        def __init__(self, A, m1, n1):
+        def __init__(self, As, m1, n1):
             super().__init__()
-            self.A, self.m1, self.n1 = A, m1, n1
+            self.As, self.m1, self.n1 = As, m1, n1
+
+        def initialize(self):
+            self.options.declare('which', default=0, types=int)
+
+        @property
+        def A(self):
+            return self.As[self.options['which']]
 
         def blocks(self):
             A, m1, n1 = self.A, self.m1, self.n1
@@ -365,6 +378,14 @@ def requests_of(case):
     return seq
 
 
+def round_matrices(case):
+    """The matrix of every round of a `requests` case (round 0 = the case's own pattern)."""
+    out = [matrix(case)]
+    for rd in case.get('resetup') or []:
+        out.append(matrix(dict(case, nz=rd['nz'], vseed=rd['vseed'])))
+    return out
+
+
 def requests_problem(case, colored):
     import openmdao.api as om
     from openmdao.utils.coloring import _compute_coloring
@@ -376,7 +397,7 @@ def requests_problem(case, colored):
     ivc = p.model.add_subsystem('ivc', om.IndepVarComp(), promotes=['*'])
     ivc.add_output('x', np.zeros(n1))
     ivc.add_output('w', np.zeros(n - n1))
-    p.model.add_subsystem('c', Lin2(A, m1, n1), promotes=['*'])
+    p.model.add_subsystem('c', Lin2(round_matrices(case), m1, n1), promotes=['*'])
     p.model.add_design_var('x')
     p.model.add_design_var('w')
     p.model.add_constraint('y1', lower=0.)
@@ -397,17 +418,45 @@ def requests_problem(case, colored):
     return p
 
 
+def partial_exact(case):
+    """Exact partial jacobian of a `partial` case at the point where it is evaluated, in the layout
+    compute_totals is asked for (columns: x, then v for the bilinear ExecComp)."""
+    A = matrix(case)
+    m, n = A.shape
+    if case['sub'] != 'execcomp_zero':
+        return A
+    x = np.arange(1, n + 1) * 0.5
+    v = np.array([[-2., 1.5, 3., -0.5, 2., 4., -1.][c % 7] for c in range(n)])
+    return np.hstack([A * v[None, :], A * x[None, :]])     # y_r = sum_c a_rc * x_c * v_c
+
+
 def partial_problem(case, colored):
     import openmdao.api as om
     A = matrix(case)
     m, n = A.shape
     p = om.Problem()
+    wrt = ['x']
     if case['sub'] == 'comp_cs':
         Lin = _lin_class()
         p.model.add_subsystem('ivc', om.IndepVarComp('x', np.ones(n)), promotes=['*'])
         comp = p.model.add_subsystem('c', Lin(A, approx='colored' if colored else 'plain'),
                                      promotes=['*'])
         ofs = ['y']
+    elif case['sub'] == 'execcomp_zero':
+        # bilinear rows y_r = sum_c a_rc * x[c] * v[c]; the first linearization (where ExecComp
+        # computes its coloring) happens at x = 0, where every d y/d v vanishes numerically
+        exprs = []
+        for r in range(m):
+            terms = ['%d.0*x[%d]*v[%d]' % (int(A[r, c]), c, c) for c in range(n)
+                     if [r, c] in case['nz']]
+            exprs.append('y%d = %s' % (r, ' + '.join(terms)))
+        ivc = p.model.add_subsystem('ivc', om.IndepVarComp(), promotes=['*'])
+        ivc.add_output('x', np.zeros(n))
+        ivc.add_output('v', np.ones(n))
+        comp = p.model.add_subsystem('c', om.ExecComp(exprs, x=np.zeros(n), v=np.ones(n),
+                                                      do_coloring=colored), promotes=['*'])
+        ofs = ['y%d' % r for r in range(m)]
+        wrt = ['x', 'v']
     else:
         exprs = []
         for r in range(m):
@@ -418,9 +467,13 @@ def partial_problem(case, colored):
                                      promotes=['*'])
         ofs = ['y%d' % r for r in range(m)]
     p.setup(force_alloc_complex=True)
+    if case['sub'] == 'execcomp_zero':
+        p.run_model()
+        p.compute_totals(of=ofs, wrt=wrt, return_format='array')     # first linearization at x = 0
+        p.set_val('v', np.array([[-2., 1.5, 3., -0.5, 2., 4., -1.][c % 7] for c in range(n)]))
     p.set_val('x', np.arange(1, n + 1) * 0.5)
     p.run_model()
-    J = p.compute_totals(of=ofs, wrt=['x'], return_format='array')
+    J = p.compute_totals(of=ofs, wrt=wrt, return_format='array')
     return p, comp, np.array(J)
 
 
@@ -443,7 +496,9 @@ class C03(Property):
             "with fixed or dynamic coloring and optional driver scaling; (requests) a colored driver followed by "
             "a sequence of compute_totals requests with other (of, wrt) layouts - subset / reordered of "
             "only, wrt only, both, default again, custom first - each compared entry by entry with an "
-            "uncolored twin, in fwd, rev and auto mode; (partial) colored vs uncolored "
+            "uncolored twin, in fwd, rev and auto mode, half of the dynamic ones continued by changing the "
+            "component's sparsity through an option, setup() again on the same Problem (once or twice) and "
+            "repeating the requests, the final coloring certified against the last sparsity; (partial) colored vs uncolored "
             "partials of a cs-approximated component and of an ExecComp. Non-trivial: some color holds "
             "two or more columns/rows or the coloring has subtractions; distinct by canonical case.")
     assumptions = ["matrices hold small integers (and power-of-two scalers) so the float computation of "
@@ -520,12 +575,27 @@ class C03(Property):
             for c in range(n):
                 if not J[:, c].any():
                     J[rng.randrange(m), c] = True
-            out.append({'k': 'requests', 'm': m, 'n': n, 'nz': nz_of(J), 'fam': fam,
-                        'vseed': rng.randrange(10 ** 9),
-                        'split': [rng.randint(1, m - 1), rng.randint(1, n - 1)],
-                        'mode': ['fwd', 'rev', 'auto'][i % 3], 'dyn': i % 4 != 3,
-                        'direct': rng.random() < 0.5,
-                        'first': ['default', 'default', 'wrt', 'of'][(i // 3) % 4]})
+            case = {'k': 'requests', 'm': m, 'n': n, 'nz': nz_of(J), 'fam': fam,
+                    'vseed': rng.randrange(10 ** 9),
+                    'split': [rng.randint(1, m - 1), rng.randint(1, n - 1)],
+                    'mode': ['fwd', 'rev', 'auto'][i % 3], 'dyn': i % 4 != 3,
+                    'direct': rng.random() < 0.5,
+                    'first': ['default', 'default', 'wrt', 'of'][(i // 3) % 4]}
+            if case['dyn'] and i % 2 == 0:
+                # re-setup sequence: the same Problem is set up again with another sparsity of the
+                # same shape (and, every other time, a third time with the first one)
+                fam2 = ['banded', 'blockdiag', 'arrow', 'sparse+partial', 'corners'][i % 5]
+                J2 = family(rng, fam2, m, n)
+                for r in range(m):
+                    if not J2[r].any():
+                        J2[r, rng.randrange(n)] = True
+                for c in range(n):
+                    if not J2[:, c].any():
+                        J2[rng.randrange(m), c] = True
+                case['resetup'] = [{'nz': nz_of(J2), 'vseed': rng.randrange(10 ** 9)}]
+                if i % 4 == 0:
+                    case['resetup'].append({'nz': case['nz'], 'vseed': rng.randrange(10 ** 9)})
+            out.append(case)
         if quick:
             out.extend(exhaustive(9, sample_vectors=(rng, 40)))
         else:
@@ -561,15 +631,24 @@ class C03(Property):
             if sc in ('col', 'both'):
                 case['colscale'] = [rat(rng.choice(POW2)) for _ in range(n)]
             out.append(case)
-        n_par = 10 if quick else 120
+        n_par = 12 if quick else 150
         for i in range(n_par):
             fam = ['banded', 'arrow', 'blockdiag', 'random'][i % 4]
             m, n = rng.randint(2, 7), rng.randint(2, 7)
             J = family(rng, fam, m, n)
+            sub = ['comp_cs', 'execcomp', 'execcomp_zero'][i % 3]
+            if sub != 'comp_cs' and i % 2 == 0:
+                # ExecComp keeps its coloring only if it saves solves: a narrow band, a few extras
+                fam = 'band'
+                m, n = rng.randint(4, 8), rng.randint(5, 9)
+                bw = rng.randint(0, 1)
+                J = np.array([[abs(r - c) <= bw for c in range(n)] for r in range(m)])
+                for _ in range(rng.randint(0, 2)):
+                    J[rng.randrange(m), rng.randrange(n)] = True
             for r in range(m):
                 if not J[r].any():
                     J[r, rng.randrange(n)] = True
-            out.append({'k': 'partial', 'sub': ['comp_cs', 'execcomp'][i % 2], 'm': m, 'n': n,
+            out.append({'k': 'partial', 'sub': sub, 'm': m, 'n': n,
                         'nz': nz_of(J), 'fam': fam, 'vseed': rng.randrange(10 ** 9)})
         return out
 
@@ -652,29 +731,37 @@ class C03(Property):
         return res
 
     def impl_requests(self, case):
-        A = matrix(case)
         m1, n1 = case['split']
         rows = {'y1': list(range(m1)), 'y2': list(range(m1, case['m']))}
         cols = {'x': list(range(n1)), 'w': list(range(n1, case['n']))}
         pu = requests_problem(case, False)
         pc = requests_problem(case, True)
         out = []
-        for kw in requests_of(case):
-            ri = [i for v in kw.get('of', ['y1', 'y2']) for i in rows[v]]
-            ci = [j for v in kw.get('wrt', ['x', 'w']) for j in cols[v]]
-            exact = A[np.ix_(ri, ci)]
-            Ju = np.array(pu.compute_totals(return_format='array', **kw))
-            rec = {'kw': kw, 'unc_ok': bool(Ju.shape == exact.shape and (Ju == exact).all())}
-            try:
-                Jc = np.array(pc.compute_totals(return_format='array', **kw))
-                if Jc.shape != Ju.shape:
-                    rec['shape'] = [list(Jc.shape), list(Ju.shape)]
-                else:
-                    rec['bad'] = diff_entries(Jc, Ju)
-            except Exception as e:
-                rec['raised'] = type(e).__name__
-                rec['msg'] = str(e)[:200]
-            out.append(rec)
+        for rnd, A in enumerate(round_matrices(case)):
+            if rnd > 0:
+                # change the component's sparsity through its option and set the Problem up again
+                for p in (pu, pc):
+                    p.model.c.options['which'] = rnd
+                    p.setup(mode=case['mode'])
+                    p.final_setup()
+                    p.run_model()
+            for kw in requests_of(case):
+                ri = [i for v in kw.get('of', ['y1', 'y2']) for i in rows[v]]
+                ci = [j for v in kw.get('wrt', ['x', 'w']) for j in cols[v]]
+                exact = A[np.ix_(ri, ci)]
+                Ju = np.array(pu.compute_totals(return_format='array', **kw))
+                rec = {'kw': kw, 'round': rnd,
+                       'unc_ok': bool(Ju.shape == exact.shape and (Ju == exact).all())}
+                try:
+                    Jc = np.array(pc.compute_totals(return_format='array', **kw))
+                    if Jc.shape != Ju.shape:
+                        rec['shape'] = [list(Jc.shape), list(Ju.shape)]
+                    else:
+                        rec['bad'] = diff_entries(Jc, Ju)
+                except Exception as e:
+                    rec['raised'] = type(e).__name__
+                    rec['msg'] = str(e)[:200]
+                out.append(rec)
         col = pc.driver._coloring_info.coloring
         res = {'requests': out, 'col': None if col is None else colj(col)}
         if col is not None:
@@ -687,12 +774,15 @@ class C03(Property):
         p0, c0, J0 = partial_problem(case, False)
         p1, c1, J1 = partial_problem(case, True)
         col = c1._coloring_info.coloring
-        scale = max(1.0, float(np.abs(A).max()))
+        E = partial_exact(case)
+        scale = max(1.0, float(np.abs(E).max()))
         err = float(np.abs(J1 - J0).max()) / scale
-        err_exact = float(np.abs(J1 - A).max()) / scale
-        res = {'err': err, 'err_exact': err_exact, 'col': None if col is None else colj(col)}
+        err_exact = float(np.abs(J1 - E).max()) / scale
+        res = {'err': err, 'err_exact': err_exact, 'unc_err': float(np.abs(J0 - E).max()) / scale,
+               'col': None if col is None else colj(col)}
         if col is not None:
             res['sparsity'] = sparsity_of(col)
+            res['shape'] = [int(col._shape[0]), int(col._shape[1])]
         return res
 
     # -- the property, evaluated directly ------------------------------------------------------------
@@ -734,18 +824,21 @@ class C03(Property):
             return None
         if case['k'] == 'requests':
             for k, rec in enumerate(impl['requests']):
-                what = 'request %d compute_totals(%s) on the colored problem' % (
-                    k, ', '.join('%s=%s' % kv for kv in sorted(rec['kw'].items())))
+                what = 'request %d (after setup #%d) compute_totals(%s) on the colored problem' % (
+                    k, rec.get('round', 0) + 1,
+                    ', '.join('%s=%s' % kv for kv in sorted(rec['kw'].items())))
                 if 'raised' in rec:
                     return {'what': what + ' raised %s (the uncolored twin returns the totals)'
                             % rec['raised'], 'code': 'request-raised', 'request': k,
-                            'msg': rec.get('msg')}
+                            'round': rec.get('round', 0), 'msg': rec.get('msg')}
                 if 'shape' in rec:
                     return {'what': what + ' has another shape than on the uncolored twin',
-                            'code': 'request-shape', 'request': k, 'shapes': rec['shape']}
+                            'code': 'request-shape', 'request': k, 'round': rec.get('round', 0),
+                            'shapes': rec['shape']}
                 if rec['bad']:
                     return {'what': what + ' differs from the uncolored twin',
-                            'code': 'request-totals', 'request': k, 'entries': rec['bad']}
+                            'code': 'request-totals', 'request': k, 'round': rec.get('round', 0),
+                            'entries': rec['bad']}
             col = impl['col']
             if col is not None and (impl['shape'] != [m, n] or col['total'] >
                                     {'fwd': n, 'rev': m, 'auto': min(m, n)}[case['mode']]):
@@ -757,7 +850,7 @@ class C03(Property):
             if impl['err'] > PARTIAL_TOL or impl['err_exact'] > PARTIAL_TOL:
                 return {'what': 'colored partial derivatives differ from uncolored ones',
                         'code': 'partials', 'err': impl['err'], 'err_exact': impl['err_exact']}
-            if impl['col'] is not None and impl['col']['total'] > n:
+            if impl['col'] is not None and impl['col']['total'] > impl['shape'][1]:
                 return {'what': 'the partial coloring needs more solves than no coloring',
                         'code': 'solves', 'total': impl['col']['total']}
             return None
@@ -823,6 +916,7 @@ class C03(Property):
                 case['mode'], 'dynamic' if case['dyn'] else 'fixed', case['first'],
                 'none' if col is None else 'bidirectional' if col['fwd'] and col['rev'] else
                 'fwd' if col['fwd'] else 'rev'))
+            b.append('requests: setups on one Problem=%d' % (1 + len(case.get('resetup') or [])))
             b.append('requests: compute_totals calls compared=%d' % len(impl['requests']))
         elif case['k'] == 'total':
             col = impl['col']
@@ -862,6 +956,9 @@ class C03(Property):
             rq = {'op': 'certify', 'col': impl['col'], 'tag': 'used', 'nz': impl['sparsity']}
             if 'shape' in impl:
                 rq['nrows'], rq['ncols'] = impl['shape']
+            if case['k'] == 'requests':
+                # the coloring the driver ends with must be one for the sparsity of the LAST setup
+                rq['nz'] = sorted((case.get('resetup') or [case])[-1]['nz'])
             reqs.append(rq)
             if case['k'] == 'total' and self.late is not None and \
                     impl['sparsity'] == sorted(case['nz']):
